@@ -41,6 +41,9 @@ func (e *Enc) callWith(fr *Frame, c *ssa.CallCommon, site ssa.Instruction, st *S
 		if fnv != nil {
 			recv = *fnv
 		}
+		if fr.top != nil && fr.top.contract != nil && fr.top.contract.NoNilChecks && fnv == nil && e.signalResult(c.Value) {
+			e.safety(fr, "safety.nilsignal", rb, "(not (= (if_typ "+recv.T+") 0))", sitePos(site))
+		}
 		e.safety(fr, "safety.nil", rb, "(not (= (if_typ "+recv.T+") 0))", sitePos(site))
 		key := ifaceMethodKey(c.Value.Type(), c.Method)
 		all := append([]Val{recv}, args...)
@@ -337,7 +340,7 @@ func (e *Enc) applyContractFV(fr *Frame, ct *Contract, key string, sig *types.Si
 	env.setResults(res, sig)
 	// call log
 	if ct.Logged != "" {
-		post = e.logCall(ct.Logged, post, args, res, sig, invoke)
+		post = e.logCallG(ct.Logged, post, args, res, sig, invoke, e.w.originSig(key))
 	}
 	for _, en := range ct.Ensures {
 		f := e.evalBoolEnv(env, en.Expr, post, st, en)
@@ -484,10 +487,25 @@ func cutLast(s, sep string) (string, string, bool) {
 
 // logCall appends a call record to the ghost log `name`: components $name.n, $name.argK, $name.retK
 func (e *Enc) logCall(name string, st *State, args []Val, res Val, sig *types.Signature, invoke bool) *State {
+	return e.logCallG(name, st, args, res, sig, invoke, nil)
+}
+
+// logCallG: osig is the generic (origin) signature when the callee is an instantiation of a generic
+// function; arguments and results whose declared type is a type parameter are recorded boxed as
+// interface values, so that all instantiations share one log.
+func (e *Enc) logCallG(name string, st *State, args []Val, res Val, sig *types.Signature, invoke bool, osig *types.Signature) *State {
 	nC := "$" + name + ".n"
 	e.comps.Register(nC, "Int")
 	n := e.Get(st, nC)
+	isTP := func(t types.Type) bool { _, ok := t.(*types.TypeParam); return ok }
+	off := 0
+	if osig != nil && osig.Recv() != nil && len(args) == osig.Params().Len()+1 {
+		off = 1
+	}
 	for i, a := range args {
+		if osig != nil && i-off >= 0 && i-off < osig.Params().Len() && isTP(osig.Params().At(i-off).Type()) && e.sortOf(a.Typ) != "Iface" {
+			a = e.makeIface(a, a.Typ)
+		}
 		c := fmt.Sprintf("$%s.arg%d", name, i)
 		e.comps.Register(c, "(Array Int "+e.sortOf(a.Typ)+")")
 		st = e.Set(st, c, app("store", e.Get(st, c), n, a.T))
@@ -500,6 +518,9 @@ func (e *Enc) logCall(name string, st *State, args []Val, res Val, sig *types.Si
 		rs = nil
 	}
 	for i, r := range rs {
+		if osig != nil && i < osig.Results().Len() && isTP(osig.Results().At(i).Type()) && e.sortOf(r.Typ) != "Iface" {
+			r = e.makeIface(r, r.Typ)
+		}
 		c := fmt.Sprintf("$%s.ret%d", name, i)
 		e.comps.Register(c, "(Array Int "+e.sortOf(r.Typ)+")")
 		st = e.Set(st, c, app("store", e.Get(st, c), n, r.T))
@@ -914,6 +935,9 @@ func (e *Enc) loopModSet(fr *Frame, body map[*ssa.BasicBlock]bool) func(string) 
 func (e *Enc) addContractMods(ct *Contract, set map[string]bool, all, allRepo *bool, pats, logs *[]string) {
 	if ct.Logged != "" {
 		*logs = append(*logs, ct.Logged)
+	}
+	if ct.FreshResult {
+		set["$alloc"] = true
 	}
 	if ct.Pure {
 		return
